@@ -142,6 +142,27 @@ def marker_dedup_order(stmts, query_select="query.select"):
     if not visible_names:
         return loop, False, "the visible column list (query.select before it is reset) is not kept, so the loop cannot order by it"
     it = loop.iter
+
+    # the iterated value may be a local built from the ordered source by order-preserving steps (a comprehension with
+    # filters / projections over it, list(..), a plain alias): follow them back
+    def _def_of(name):
+        vals = [st.value for st in stmts if isinstance(st, ast.Assign) and len(st.targets) == 1 and isinstance(st.targets[0], ast.Name) and st.targets[0].id == name]
+        return vals[-1] if len(vals) == 1 else None
+
+    for _ in range(6):
+        if isinstance(it, ast.Name) and it.id not in visible_names:
+            d = _def_of(it.id)
+            if d is None:
+                break
+            it = d
+        elif isinstance(it, (ast.ListComp, ast.GeneratorExp)) and len(it.generators) == 1:
+            it = it.generators[0].iter
+        elif isinstance(it, ast.Call) and norm(it.func) in ("list", "tuple", "iter") and len(it.args) == 1:
+            it = it.args[0]
+        elif isinstance(it, ast.Call) and isinstance(it.func, ast.Attribute) and it.func.attr in ("keys", "items") and not it.args and isinstance(it.func.value, ast.Name) and _def_of(it.func.value.id) is not None:
+            it = _def_of(it.func.value.id)
+        else:
+            break
     # idiom 1: sorted(X, key=lambda u: u not in V)
     if isinstance(it, ast.Call) and norm(it.func) == "sorted":
         key = next((k.value for k in it.keywords if k.arg == "key"), None)
